@@ -43,6 +43,22 @@ Judge(rec) ==
           <<class = "plain" => (o.ok /\ o.signer = "none" /\ ref.wf /\ ParasMatch(o.paras, ref.paras)),
             "plain document not read faithfully / signer reported for unsigned input">> >>)
 
+\* ---- several signature packets in the armored signature --------------------------------------------------
+\* the document may be accepted only if ONE of the packets is a signature by a keyring key over the signed text
+JudgeMulti(rec) ==
+    LET o == rec.obs
+        ring == {rec.keyring[i] : i \in 1..Len(rec.keyring)}
+        ps == rec.in.mut.packets
+        valid == (\E i \in 1..Len(ps) : ps[i] = "good" /\ "k1" \in ring) \/ (\E i \in 1..Len(ps) : ps[i] = "k2good" /\ "k2" \in ring)
+        ref == RefRead(rec.in.doc)
+    IN Checks(IF valid THEN "several-packets-one-valid" ELSE "several-packets-none-valid",
+       << <<~o.panic, "panic">>,
+          <<~valid => (~o.ok /\ o.next_paras = <<>> /\ o.signer = "none"),
+            "clearsigned input was accepted although none of the signature packets is a signature by a keyring key over the text">>,
+          <<o.signer # "none" => o.signer \in ring, "reported signer is not a key of the keyring">>,
+          <<o.next_paras # <<>> => (ref.wf /\ Len(o.next_paras) <= Len(ref.paras) /\ ParasMatch(o.next_paras, SubSeq(ref.paras, 1, Len(o.next_paras)))),
+            "paragraphs returned are not those of the signed text">> >>)
+
 \* ---- several readers alive in one process -------------------------------------------------------------
 \* abstract state per reader: the document it was opened on and how many paragraphs it has handed out.  The
 \* k-th Next on a reader returns the k-th paragraph of ITS document, then end-of-input for ever.
@@ -67,7 +83,8 @@ JudgeOps(rec) ==
        ELSE V(FALSE, "reader-lifecycle", "with several readers alive in one process, a reader (" \o ops[first].op \o
               ") does not deliver exactly the paragraphs of its own document followed by end-of-input, or reports the wrong signer")
 
-JudgeAny(rec) == IF rec.ev = "cs_ops" THEN JudgeOps(rec) ELSE Judge(rec)
+JudgeAny(rec) == IF rec.ev = "cs_ops" THEN JudgeOps(rec)
+                 ELSE IF rec.in.mut.op = "multi_sig" THEN JudgeMulti(rec) ELSE Judge(rec)
 
 Init == l \in 1..Len(Trace) /\ verdict = Pending
 Next == verdict.class = "pending" /\ verdict' = JudgeOrCrash(Trace[l], JudgeAny) /\ UNCHANGED l
